@@ -1330,6 +1330,7 @@ func ledgerEpoch(c *Ctx, mode string, nBlocks int, epoch int) {
 		}
 		nearBoundary = !first && (phase+2 >= termT || phase <= termI+1)
 		contractBlock = false
+		dryBlock := 0
 		assetBlock = false
 		rewardSetBlock := false
 		var cand []*ledgerTx
@@ -1415,6 +1416,19 @@ func ledgerEpoch(c *Ctx, mode string, nBlocks int, epoch int) {
 			for i := 0; i < nt; i++ {
 				cand = append(cand, genTx(parent.Hash()))
 			}
+			if !assetBlock && !isReward && !isSnapshot && blk > 1 && rnd.Intn(9) == 0 {
+				// DRY block: 3..6 plain transfers whose gas limit barely exceeds what they use, and (below) a block gas limit
+				// with room for only some of them: the pool falls under one OrdinaryTxGas while candidates are still waiting —
+				// ApplyTxs' "not enough gas for further transactions" exit, taken with fees already collected
+				dryBlock = 1 + rnd.Intn(3)
+				cand = nil
+				for i := 0; i < dryBlock+1+rnd.Intn(3); i++ {
+					un := userNames[rnd.Intn(len(userNames))]
+					on := userNames[rnd.Intn(len(userNames))]
+					cand = append(cand, mk(txTransfer(l.key(un), keyAddr(l.key(on)), lemo(int64(1+rnd.Intn(3))), TxOpt{Exp: exp(), GasPrice: big.NewInt(int64(1+rnd.Intn(5)) * 1000000000), GasLimit: uint64(22500 + rnd.Intn(1500)), Msg: fmt.Sprintf("dry%d", l.nextID)}), "dry-transfer", un))
+				}
+				c.Count("block:dry(room for fewer plain txs than candidates)")
+			}
 		}
 		// the miner only ever sees what its pool admitted: a candidate that fails VerifyTxBody never reaches ApplyTxs
 		{
@@ -1451,6 +1465,9 @@ func ledgerEpoch(c *Ctx, mode string, nBlocks int, epoch int) {
 		if !first && blk > 1 && !rewardSetBlock && rnd.Intn(4) == 0 {
 			blockGas = uint64(25000 + rnd.Intn(400000))
 			c.Count("block:tight-gas-limit")
+		}
+		if dryBlock > 0 {
+			blockGas = uint64(21000*dryBlock + 3500 + rnd.Intn(15000))
 		}
 		modelled := !contractBlock && !rewardSetBlock && !assetBlock
 		blockLine := fmt.Sprintf("block %d %d %d %s", height, l.label(miner), blockGas, l.depsField(parent.Hash(), height))
@@ -1603,6 +1620,9 @@ func ledgerEpoch(c *Ctx, mode string, nBlocks int, epoch int) {
 			var sel, inv []string
 			for _, tx := range b.Txs {
 				sel = append(sel, fmt.Sprintf("%d:%d", byHashID(byHash, tx), tx.GasUsed()))
+			}
+			if len(b.Txs) > 0 && len(b.Txs)+len(invalid) < len(cand) && blockGas-b.GasUsed() < 21000 {
+				c.Count("nontrivial:block:pool-ran-dry-with-candidates-left(fees collected)")
 			}
 			var invIDs []int
 			for _, tx := range invalid {
